@@ -559,6 +559,59 @@ def run_replace(ctx, idx, rng, tmp):
     return case
 
 
+def run_wide(ctx, idx, rng, tmp):
+    """A matching, reachable, mapped file basin whose definition lists many features (a long
+    definition text): every listed feature is offered and holds the origin's data at the mapped
+    events."""
+    import warnings
+    import dclab
+    import dclab.definitions as dfn
+    from vmon.gen import dataset as gd
+    names = sorted(f for f in dfn.scalar_feature_names
+                   if f not in ("index", "index_online", "time", "frame", "nevents", "ml_class")
+                   and not f.startswith(("fl", "ml_", "basinmap", "userdef0")))[:80]
+    n = int(rng.integers(3, 9))
+    m = int(rng.integers(40, len(names) + 1))
+    listed = names[:m]
+    data = {f: 100.0 * k + np.arange(n) for k, f in enumerate(listed)}
+    meta = gd.complete_meta(rng, {}, n)
+    meta["experiment"]["run identifier"] = f"wide-{idx}"
+    origin = tmp / "wide_origin.rtdc"
+    with dclab.RTDCWriter(origin, mode="reset") as hw:
+        hw.store_metadata(meta)
+        for f, v in data.items():
+            hw.store_feature(f, v)
+    nb = int(rng.integers(2, 2 * n))
+    bmap = rng.integers(0, n, nb).astype(np.uint64)
+    meta2 = {s_: dict(kv) for s_, kv in meta.items()}
+    meta2["experiment"]["event count"] = nb
+    ref = tmp / "wide_ref.rtdc"
+    with dclab.RTDCWriter(ref, mode="reset") as hw:
+        hw.store_metadata(meta2)
+        hw.store_feature("userdef0", np.arange(nb, dtype=float))
+        hw.store_basin(basin_name="wide", basin_type="file", basin_format="hdf5",
+                       basin_locs=[str(origin)], basin_feats=listed, basin_map=bmap)
+    case = {"kind": "wide", "listed_features": m, "n_origin": n, "n_referrer": nb}
+    with warnings.catch_warnings():
+        warnings.simplefilter("ignore")
+        with dclab.new_dataset(ref) as ds:
+            for f in listed:
+                off = f in ds
+                ctx.check("c14.offered_iff_model", off,
+                          lambda: dict(case, feature=f, offered=off, model=True),
+                          message=f"{f} is listed by a matching, reachable basin but not offered")
+                if off:
+                    val = np.asarray(ds[f][:])
+                    ctx.check("c14.data_provenance",
+                              np.array_equal(val, data[f][bmap.astype(np.intp)]),
+                              lambda: dict(case, feature=f, got=val,
+                                           expected=data[f][bmap.astype(np.intp)]),
+                              message=f"{f} offered through the mapped basin but the data are "
+                                      f"not the origin's at the mapped events")
+    ctx.count("wide_basin_definitions")
+    return case
+
+
 def run(spec, ctx):
     from vmon import boot
     install(ctx)
@@ -567,6 +620,11 @@ def run(spec, ctx):
         tmp = boot.scratch() / f"c14_{spec['kind']}_{idx}"
         tmp.mkdir()
         try:
+            if spec["kind"] == "graph" and idx % 6 == 5:
+                try:
+                    ctx.mark_nontrivial(["wide", idx, run_wide(ctx, idx, rng, tmp)])
+                except Exception as exc:
+                    ctx.raised("c14.resolves_without_error", f"wide basin definition {idx}", exc)
             if spec["kind"] == "remote":
                 case = run_remote(ctx, idx, rng, tmp)
                 ctx.mark_nontrivial(["remote", idx, case])
